@@ -38,6 +38,9 @@ CANARY = 'zqCANARYqz'
 CANARIES = ['<i id=%s>' % CANARY, '"%s=\'1' % CANARY, '&%s;<' % CANARY]
 
 
+THREAD_REPLICA = False   # this monitor uses a process-wide sys.monitoring probe / has its own thread trials
+
+
 def shards(tier):
     names = sorted(C.number_modules())
     n = 16 if tier == 'quick' else 48
